@@ -331,6 +331,12 @@ def evaluate(ctx):
         mine = [d for d in ex.get("struct_diffs", []) if pid in d["props"]]
         cov["structural_subjects_checked"] = ex.get("struct_checked", 0)
         cov["structural_differences"] = len(mine)
+        asked = [d for d in mine if d.get("differs_from_request")]
+        if asked and pid == "C15":
+            d = asked[0]
+            out.violations.append({"property": pid, "kind": "item-differs-from-what-the-declaration-requests", "difference": d["what"],
+                                   "requested": d["differs_from_request"], "expansion": d["expansion"], "declaration": d["decl"], "note": d["note"],
+                                   "witness_key": "requested-" + d["what"].split(" ")[-1]})
         if mine and not out.violations:
             d = mine[0]
             out.violations.append({"property": pid, "kind": "expansion-differs-from-model-prediction", "no_failing_input": True,
